@@ -80,7 +80,7 @@ int main(int argc, char** argv){
         case 10:{ h=0; char tmp[64]; size_t l = rnd()%63; memset(tmp,'x',l); tmp[l]=0; p = (unsigned char*)mi_strdup(tmp); n = l+1; break; }
         default: { size_t c = 1 + rnd()%5; size_t s = n/c; n=c*s; al = rnd_align(); p = mi_heap_calloc_aligned(heaps[h], c, s, al); zero=1; break; }
       }
-      if (p==NULL) { if (n < 100*1024*1024) FAIL("alloc kind %d size %zu align %zu returned NULL", kind, n, al); continue; }
+      if (p==NULL) { if (n < 100*1024*1024 && !getenv("FZ_ALLOWNULL")) FAIL("alloc kind %d size %zu align %zu returned NULL", kind, n, al); continue; }
       if (kind==10) { for(size_t i=0;i+1<n;i++) if (p[i]!='x') FAIL("strdup content"); }
       check_new(p, n, zero, al, off, "alloc");
       add(p, n, zero, h, al, off);
@@ -112,7 +112,7 @@ int main(int argc, char** argv){
         default: if (al<=1) { al = 0; off = 0; q = mi_heap_realloc(heaps[h], b->p, n); zero = 0; }
                  else { if (off==0) q = mi_heap_realloc_aligned(heaps[h], b->p, n, al); else q = mi_heap_realloc_aligned_at(heaps[h], b->p, n, al, off); zero = 0; }
       }
-      if (q==NULL) { if (n < 100*1024*1024) FAIL("realloc kind %d to %zu returned NULL", kind, n); continue; }
+      if (q==NULL) { if (n < 100*1024*1024 && !getenv("FZ_ALLOWNULL")) FAIL("realloc kind %d to %zu returned NULL", kind, n); continue; }
       blk_t nb = *b; del(i);
       // content preserved up to min(oldwr, n)
       size_t keep = (oldwr < n ? oldwr : n);
